@@ -10,7 +10,7 @@ import sigcases as S
 PROP = "C04"
 META = dict(
     technique="Coq proof by structural induction over a deep embedding of adaptor trees + coqc-evaluated model vs crate correspondence on random trees",
-    text="Machine-checked (Coq 8.16.1) over a deep embedding of dasp_signal's adaptor trees whose next/is_exhausted are written after the Rust impls, parametric in the frame type and frame operations: the n-th frame of every adaptor is the frame operation applied to the n-th frame(s) of its source(s); delay(k) is k equilibrium frames then the source; every next advances every sub-signal of the tree by exactly one next (none below a delay that is still emitting silence) so a borrowed signal resumes exactly where the adaptor left it; any nesting equals the composition of the pointwise functions; clip_amp clamps the signed amplitude to [-t,t]. Tied to the crate by running the model inside coqc on random trees (depth <= 5; five hand instances incl. float, unsigned, multi-channel, bare-sample frames, and instances over the C03 sample model for all other sample formats incl. I24 / U48 as bare samples) and comparing frames, is_exhausted, the order of leaf pulls / closure calls and the leaf pull counters exactly. Besides the trees built behind dyn Signal boxes there is a STATICALLY TYPED nesting family: for every ordered pair (outer, inner) of the 13 adaptor kinds (offset, scale, their per-channel variants, clip, delay, inspect, map x2, add, mul, zip_map x2) the harness applies `leaf.inner(p1).outer(p2)` as one method chain on concrete types (7 formats), same-kind triples for offset / scale, and every kind on a statically typed Equilibrium / Gen / GenMut leaf, so that an inherent method shadowing a Signal method or an impl specialised to one adaptor type is what gets called; parameters are chosen so that folding two levels into one is visible (non-dyadic float constants checked to round differently; integer offsets whose sum overflows the format although the running sums do not).",
+    text="Machine-checked (Coq 8.16.1) over a deep embedding of dasp_signal's adaptor trees whose next/is_exhausted are written after the Rust impls, parametric in the frame type and frame operations: the n-th frame of every adaptor is the frame operation applied to the n-th frame(s) of its source(s); delay(k) is k equilibrium frames then the source; every next advances every sub-signal of the tree by exactly one next (none below a delay that is still emitting silence) so a borrowed signal resumes exactly where the adaptor left it; any nesting equals the composition of the pointwise functions; clip_amp clamps the signed amplitude to [-t,t]. Tied to the crate by running the model inside coqc on random trees (depth <= 5; five hand instances incl. float, unsigned, multi-channel, bare-sample frames, and instances over the C03 sample model for all other sample formats incl. I24 / U48 as bare samples) and comparing frames, is_exhausted, the order of leaf pulls / closure calls and the leaf pull counters exactly. Besides the trees built behind dyn Signal boxes there is a STATICALLY TYPED nesting family: for every ordered pair (outer, inner) of the 13 adaptor kinds (offset, scale, their per-channel variants, clip, delay, inspect, map x2, add, mul, zip_map x2) the harness applies `leaf.inner(p1).outer(p2)` as one method chain on concrete types (7 formats), same-kind triples for offset / scale, and every kind on a statically typed Equilibrium / Gen / GenMut leaf, so that an inherent method shadowing a Signal method or an impl specialised to one adaptor type is what gets called; parameters are chosen so that folding two levels into one is visible (non-dyadic float constants checked to round differently; integer offsets whose sum overflows the format although the running sums do not). Delay lengths are also generated AT TYPE-WIDTH BOUNDARIES: every k in {2^w - 1, 2^w, 2^w + 1, 2^w + 2, 2^w + 5 : w = 8, 15, 16, 24, 31, 32, 33, 53, 63} and 3*2^32 + 1, 5*2^32, 2^40 + 3, 2^63 + 2^32, 2^64 - 2^32 (+1), usize::MAX - 1, usize::MAX, over a borrowed finite base at any position of a small tree, on owned (almost) empty sources, nested in another long delay, cloned, and in the statically typed forms: a few calls must yield equilibrium only, leave is_exhausted false, pull nothing, and hand the base back at its first frame. The model counts a delay in unary, so the executable model first clamps every delay length of a case to 1 + the number of calls of next the case can make; theorem c04_run_delay_normalisation_sound (every case, every instance) says this changes no observation, from c04_delay_beyond_run (for every tree holding a delay longer than m, any other length above m is indistinguishable during m calls: frames, events, is_exhausted, pull counters, sub-signals handed back).",
     note="Trusted: Coq kernel; the hand-written model (closures as pure functions, iterators as lists) validated only through the correspondence; Flocq-based float instance validated against rustc in the same run; harness + python generators. Axioms: none.",
     design="6/C04")
 
@@ -19,6 +19,7 @@ RULE = ("random adaptor trees (bases of depth <= 2 borrowed through by_ref by op
         "after j calls (clone and original must continue identically) and driven through clone / nth / skip of the returned iterators; "
         "plus the statically typed nesting family (harness node `st`: one method chain on concrete adaptor types, no box between the levels; the model evaluates the ordinary nested tree): every ordered pair (outer, inner) of {offset, scale, offsetpc, scalepc, clip, delay, inspect, map rev, map add-k, add, mul, zip sub, zip select} over f64, [f32;2], [i16;2], [u8;3], i32, I24, U48 leaves (mul only where signal x signal mul is driven), "
         "offset-like and scale-like chains incl. same-kind triples with fold-revealing parameters (floats: non-dyadic constants for which sequential and folded evaluation differ on some frame, checked in python; integers with a same-width Signed companion: a + b outside the format while x + a and x + a + b are inside, exact per-channel sums), and every kind on a statically typed eq / gen / gen_mut leaf; "
+        "plus the boundary-count family: for every delay length k of S.boundary_counts (2^w-1, 2^w, 2^w+1, 2^w+2, 2^w+5 for w in 8,15,16,24,31,32,33,53,63; multiples of 2^32 plus a little; usize::MAX and neighbours) one case over a borrowed finite base: delay(k) under 0-2 random adaptor levels for 3-5 calls, the base read back, delay(k) over an (almost) empty owned source, nested with another long / a short delay, a cloned stack, the three statically typed forms; the model receives the true k and clamps it to the run's bound itself (theorem c04_run_delay_normalisation_sound); "
         "non-trivial = some op tree (bases expanded) of depth >= 2 containing a delay with k > 0 or a binary node whose sources have different lengths, or an interleaved-sample iterator cloned mid-frame")
 
 
@@ -346,6 +347,68 @@ def st_cases(rng, tier):
     return items + fold, dist
 
 
+# ---------------------------------------------------------------------------
+# delay lengths at type-width boundaries (2^8 .. 2^63, usize::MAX and neighbours, see S.boundary_counts): for EVERY such
+# k one case over a borrowed finite base:
+#   N m  ctx(delay k (ref 0))   m calls: equilibrium only, is_exhausted false before and after every call, no pull of the
+#                               base (event log, leaf counters); the delay sits under 0-2 random adaptor levels
+#   N 2  ref 0                  the base, handed back, yields its FIRST frames
+#   N m  delay k (empty source), delay k (iter of 1-2 frames)     a delay over an exhausted / short source is live
+#   N m  delay k (delay k' (ref 0)) / small delays around it, a clone of the stack after j calls (NC),
+#        the statically typed forms leaf.delay(k).outer(p) / leaf.inner(p).delay(k) / Equilibrium|Gen|GenMut.delay(k)
+#   N 3  ref 0                  still where it was left
+# (one base in five is itself delay(k'') of the finite source: silence through every op of the case)
+# The model receives the true k (Signal/SigRun.v normalises, see sigcases.py).
+
+def count_cases(rng, tier):
+    items = []
+    ks = S.boundary_counts()
+    reps = 1 if tier == "quick" else 6
+    st_ops = 0
+    for rep_i in range(reps):
+        for i, k in enumerate(ks):
+            fm = S.COUNT_FMTS[(i + rep_i) % len(S.COUNT_FMTS)]
+            flt = S.FMTS[fm]["flt"]
+            r = rng.fork(f"count_{rep_i}_{i}")
+            for attempt in range(60):
+                g = S.Gen(r, fm, maxlen=6)
+                g.lens = [0, 1, 2, 3, 4, 5]
+                base = ["iter", g.fresh(), [g.frame() for _ in range(r.choice([0, 1, 3, 4, 5]))]]
+                if r.chance(1, 3):
+                    base = g.unary(g.unary_kind(), base)
+                other = r.choice([k2 for k2 in ks if k2 != k])
+                if r.chance(1, 5):  # the base itself is delayed beyond the whole case: every borrow of it, in every op, yields silence
+                    base = ["delay", other, base]
+                m = r.range(3, 5)
+                ops = [["N", m, S.count_ctx(g, ["delay", k, ["ref", 0]], r.choice([0, 1, 1, 2]))],
+                       ["N", 2, ["ref", 0]],
+                       ["N", r.range(2, 3), ["delay", k, r.choice([["iter", g.fresh(), []], ["samp", g.fresh(), [g.sample() for _ in range(S.FMTS[fm]["n"] - 1)]]])]],
+                       ["N", 2, ["delay", k, ["iter", g.fresh(), [g.frame() for _ in range(r.choice([1, 2]))]]]],
+                       ["N", 3, r.choice([["delay", k, ["delay", other, ["ref", 0]]],
+                                          ["delay", r.range(1, 2), ["delay", k, ["ref", 0]]],
+                                          ["delay", k, ["delay", r.range(0, 2), ["ref", 0]]]])],
+                       ["NC", r.range(0, 2), 2, S.count_ctx(g, ["delay", k, g.leaf(kinds=("iter", "samp", "gen", "genmut"))], r.choice([0, 1]))]]
+                if fm in ST_FMTS:
+                    sg = StGen(r, fm, maxlen=6)
+                    sg.ids = g.ids
+                    vs = [v for v in st_variants(fm) if v != "delay"]
+                    leaf = lambda: sg.leaf(kinds=("iter", "iter", "samp", "gen", "genmut"))
+                    ops += [["N", 3, ["st", 2, st_level(sg, r.choice(vs), ["delay", k, leaf()])]],
+                            ["N", 3, ["st", 2, ["delay", k, st_level(sg, r.choice(vs), leaf())]]],
+                            ["N", 2, ["st", 1, ["delay", k, sg.leaf(kinds=(r.choice(["eq", "gen", "genmut"]),))]]]]
+                ops.append(["N", 3, ["ref", 0]])
+                it = dict(fmt=fm, bases=[base], ops=ops)
+                if S.valid(it) and sum(S.float_cost(S.op_tree(o), fm, [base]) for o in ops) <= 60:
+                    items.append(S.count_item(fm, [base], ops, "count_boundary"))
+                    st_ops += sum(1 for o in ops if S.op_tree(o)[0] == "st")
+                    break
+            else:
+                raise RuntimeError("no valid boundary-count case")
+    dist = {"count_boundary_cases": len(items), "count_boundary_values": len(ks), "count_boundary_static_ops": st_ops,
+            "count_boundary_histogram": S.count_hist(items)}
+    return items, dist
+
+
 def gen_cases(rng, tier):
     n = 1200 if tier == "quick" else 20000
     items = [gen_case(rng.fork(f"c04_{k}"), tier) for k in range(n)]
@@ -356,6 +419,9 @@ def gen_cases(rng, tier):
     dist = {"random_tree_cases": n, "all_sample_format_cases": ng,
             "wide_amplitude_cases": sum(1 for it in items if it.get("wide"))}
     dist.update(st_dist)
+    cnt, cnt_dist = count_cases(rng.fork("c04_count_boundary"), tier)
+    items += cnt
+    dist.update(cnt_dist)
     return items, dist
 
 
